@@ -95,9 +95,48 @@ def c06_r1(ctx):
             for val in ("docmap[docnum]", "docnum + startdoc"):
                 if B.eq(a, "newdoc = %s" % val):
                     nd[val] = sorted(t for t in (fa2.at(n) or []) if "docmap" in t[1])
+    ys = [y.value for y in ast.walk(pp.node) if isinstance(y, ast.Yield)]
+    unswitched = None
+    if not nd and len(ys) == 1 and isinstance(ys[0], ast.Tuple) and len(ys[0].elts) == 5:
+        # second spelling (loop unswitching): the translation is chosen once, before the loop, as a callable --
+        #     if docmap is None: def r(d): return startdoc + d      else: r = docmap.__getitem__
+        # and the loop yields r(docnum).  Read the two bindings of the callable back into the two guarded expressions.
+        e = ys[0].elts[2]
+        if isinstance(e, ast.Call) and isinstance(e.func, ast.Name) and len(e.args) == 1 and not e.keywords:
+            rname, arg = e.func.id, e.args[0]
+            parents = {}
+            for p_ in ast.walk(pp.node):
+                for ch in ast.iter_child_nodes(p_):
+                    parents[id(ch)] = p_
+
+            def guard_of(st):
+                par = parents.get(id(st))
+                if isinstance(par, ast.If):
+                    pol = "T" if st in par.body else "F"
+                    return sorted((pl, norm.canon(a_)) for pl, a_ in guards.atoms(par.test, pol) if "docmap" in norm.canon(a_))
+                return None
+            for st in ast.walk(pp.node):
+                val = None
+                if isinstance(st, ast.FunctionDef) and st is not pp.node and st.name == rname and len(st.args.args) == 1 \
+                        and len(st.body) == 1 and isinstance(st.body[0], ast.Return) and st.body[0].value is not None:
+                    val = norm.substitute(st.body[0].value, {st.args.args[0].arg: arg})
+                elif isinstance(st, ast.Assign) and len(st.targets) == 1 and isinstance(st.targets[0], ast.Name) \
+                        and st.targets[0].id == rname:
+                    v = st.value
+                    if isinstance(v, ast.Attribute) and v.attr == "__getitem__":
+                        val = ast.Subscript(value=v.value, slice=arg, ctx=ast.Load())
+                    elif isinstance(v, ast.Lambda) and len(v.args.args) == 1:
+                        val = norm.substitute(v.body, {v.args.args[0].arg: arg})
+                if val is not None:
+                    for form in ("docmap[docnum]", "docnum + startdoc"):
+                        if B.eq(val, form):
+                            nd[form] = guard_of(st)
+            if nd:
+                unswitched = e
     ctx.ob(pp, nd.get("docmap[docnum]") == [("F", "(None is docmap)")] and nd.get("docnum + startdoc") == [("T", "(None is docmap)")],
            "postings are renumbered through docmap when it exists, else by startdoc + docnum", detail=str(nd))
-    ys = [y.value for y in ast.walk(pp.node) if isinstance(y, ast.Yield)]
+    if unswitched is not None:
+        ys = [ast.Tuple(elts=ys[0].elts[:2] + [ast.Name(id="newdoc", ctx=ast.Load())] + ys[0].elts[3:], ctx=ast.Load())]
     lps = [lp for lp in ast.walk(pp.node) if isinstance(lp, ast.For) and B.eq(lp, "for fieldname, text, docnum, weight, vbytes in items: ANY")] if False else \
         [lp for lp in ast.walk(pp.node) if isinstance(lp, ast.For) and B.eq(lp.iter, "items") and B.eq(lp.target, "(fieldname, text, docnum, weight, vbytes)")]
     ctx.ob(pp, len(ys) == 1 and len(lps) == 1 and B.eq(ys[0], "(fieldname, text, newdoc, weight, vbytes)"),
